@@ -238,6 +238,25 @@ def _frac(t, memo):
     return r
 
 
+def dag_vars(ts):
+    """uninterpreted constants of a list of terms (DAG traversal with a visited set)"""
+    seen = set()
+    out = {}
+    stack = list(ts)
+    while stack:
+        t = stack.pop()
+        k = t.get_id()
+        if k in seen:
+            continue
+        seen.add(k)
+        if z3.is_const(t):
+            if t.decl().kind() == z3.Z3_OP_UNINTERPRETED:
+                out[k] = t
+            continue
+        stack.extend(t.children())
+    return out
+
+
 def identity_by_normal_form(lhs, rhs, points=None):
     """(True, None) if lhs - rhs (rational functions) normalises to the zero polynomial in z3's rewriter;
     (False, assignment) if a concrete point is found where the two sides differ (denominators and facts fine);
@@ -247,25 +266,29 @@ def identity_by_normal_form(lhs, rhs, points=None):
         (n1, d1), (n2, d2) = _frac(lhs, memo), _frac(rhs, memo)
         a = n1 if d2 is None else n1 * d2
         b = n2 if d1 is None else n2 * d1
-        e = z3.simplify(a - b, som=True, som_blowup=100000000)
+        diff = a - b
+        # 1. polynomial normal form (bounded rewriting effort): proves identities
+        e = z3.simplify(diff, som=True, som_blowup=100000000, max_steps=3000000)
         if z3.is_rational_value(e) and e.numerator_as_long() == 0:
             return True, None
-        # non-zero normal form: look for a witness point among the prepared assignments
-        from z3 import z3util
-        need = set(v.get_id() for t in [e] + [d for d in (d1, d2) if d is not None] for v in z3util.get_vars(t))
-        for full in (points or []):
-            asg = [(v, c) for (v, c) in full if v.get_id() in need]
-            if not asg:
-                continue
-            ok = True
-            for d in (d1, d2):
-                if d is not None and not z3.is_false(z3.simplify(z3.substitute(d == 0, *asg))):
-                    ok = False
-            if not ok:
-                continue
-            val = z3.simplify(z3.substitute(e, *asg))
-            if z3.is_rational_value(val) and val.numerator_as_long() != 0:
-                return False, {str(v): str(c) for v, c in asg}
+        # 2. ground witness points: a non-zero value refutes the identity
+        if points:
+            need = None
+            for full in points:
+                if need is None:
+                    need = set(dag_vars([diff] + [d for d in (d1, d2) if d is not None]).keys())
+                asg = [(v, c) for (v, c) in full if v.get_id() in need]
+                if not asg:
+                    break
+                ok = True
+                for d in (d1, d2):
+                    if d is not None and not z3.is_false(z3.simplify(z3.substitute(d == 0, *asg))):
+                        ok = False
+                if not ok:
+                    continue
+                val = z3.simplify(z3.substitute(diff, *asg))
+                if z3.is_rational_value(val) and val.numerator_as_long() != 0:
+                    return False, {str(v): str(c) for v, c in asg}
         return None, None
     except Exception:
         return None, None
@@ -288,14 +311,7 @@ class Discharger:
             return self._points
         import random
         from z3 import z3util
-        vs = {}
-        for n, (t, w_, s_) in self.ctx.vars.items():
-            if is_term_(t):
-                for v in z3util.get_vars(t):
-                    vs[v.get_id()] = v
-        for f in self.ctx.facts:
-            for v in z3util.get_vars(f):
-                vs[v.get_id()] = v
+        vs = dag_vars([t for n, (t, w_, s_) in self.ctx.vars.items() if is_term_(t)] + list(self.ctx.facts))
         vs = list(vs.values())
         rng = random.Random(11)
         pts = []
@@ -445,10 +461,19 @@ def discharge_all(ctx, extra=(), timeout_ms=60000, label_prefix="", lemmas=False
     if lemmas:
         prove_lemmas(ctx, d)
     recs = []
+    nsat = 0
+    max_sat = int(os.environ.get("VERIF_MAX_SAT_PER_GROUP", "12"))
     for ob in list(ctx.obligations) + list(extra):
         if ob.kind == "reach" and skip_reach:
             continue
+        if nsat >= max_sat and ob.kind != "reach":
+            # enough counterexamples in this group: the rest is not examined (reported as inconclusive, never as success)
+            recs.append({"label": label_prefix + ob.label, "kind": ob.kind, "status": "unknown:skipped after %d violations in this group" % max_sat,
+                         "time_s": 0, "pos": ob.pos, "ok": False, "verdict": "inconclusive"})
+            continue
         st = d.check(ob)
+        if st == "sat" and ob.kind != "reach":
+            nsat += 1
         rec = {"label": label_prefix + ob.label, "kind": ob.kind, "status": st, "time_s": round(ob.time, 4), "pos": ob.pos}
         if ob.kind == "reach":
             rec["ok"] = (st == "sat")
